@@ -14,7 +14,7 @@ fn attr_word(k: usize) -> &'static str {
 }
 
 fn field_attr(recvs: &[Recv], scope: &str, f: &Field, k: usize) -> String {
-    let hn = f.rust.trim_start_matches("r#");
+    let hn = f.rust.trim_start_matches("r#").trim_start_matches('_');
     let mut opts: Vec<String> = vec![];
     if let Some(n) = &f.rename {
         opts.push(format!("rename = \"{n}\""));
@@ -65,7 +65,7 @@ fn field_attr(recvs: &[Recv], scope: &str, f: &Field, k: usize) -> String {
 }
 
 fn field_helpers(recvs: &[Recv], scope: &str, f: &Field, k: usize, out: &mut String) {
-    let hn = f.rust.trim_start_matches("r#");
+    let hn = f.rust.trim_start_matches("r#").trim_start_matches('_');
     let elem_ty = rust_ty(recvs, &f.ty);
     let full_ty = field_full_ty(recvs, f);
     if f.default == Def::Func && hn.starts_with("own_") {
@@ -501,6 +501,12 @@ pub fn emit_shard_darling_only(recvs: &[Recv], ids: &[usize]) -> String {
     let mut in_enum = false;
     for line in full.lines() {
         if line.starts_with("impl ::vf_support::Dump") {
+            continue;
+        }
+        if line.starts_with("#![allow(") {
+            // a crate that denies style lints: what the derive adds (locals, helper names) is not the
+            // user's spelling and must not be linted as such
+            out.push_str("#![allow(dead_code, unused_variables, unused_mut, unused_imports, clippy::all)]\n#![deny(nonstandard_style)]\n");
             continue;
         }
         if line.starts_with("fn dispatch(") {
